@@ -803,6 +803,13 @@ func (fr *Frame) runCallbackLoop(cv *closureVal, calleeCt *Contract, paramName s
 		u.assume(stH.pc, t)
 	}
 	exits := invoke(stH, true)
+	if len(exits) > 0 {
+		var pcs []Term
+		for _, e := range exits {
+			pcs = append(pcs, e.st.pc)
+		}
+		u.probes = append(u.probes, probe{pc: Or(pcs...), what: fmt.Sprintf("no invocation of the callback %s passed to %s can return under the assumed facts", fn.Name(), calleeKey)})
+	}
 	for _, e := range exits {
 		for _, c := range invs {
 			t, err := fr.evalBool(c.E, e.st, fr.entry)
